@@ -821,6 +821,41 @@ impl World {
                 }
                 o
             }
+            ["cinit", rel, y, spec] => {
+                // shorebird_init with each pointer argument proper (o), NULL (n) or ill-formed UTF-8 (b):
+                // spec = <params struct><release_version><storage dir><cache dir><paths: o/e(mpty)/n/b><yaml>
+                let sp: Vec<char> = spec.chars().collect();
+                let bad = [0xffu8, 0xfe, 0x00];
+                let pick = |c: char, good: &CString| -> *const libc::c_char {
+                    match c {
+                        'n' => std::ptr::null(),
+                        'b' => bad.as_ptr() as *const libc::c_char,
+                        _ => good.as_ptr(),
+                    }
+                };
+                let rel_c = CString::new(str_tok(rel)).unwrap();
+                let storage_c = CString::new(self.storage.to_str().unwrap()).unwrap();
+                let cache_c = CString::new(self.cache.to_str().unwrap()).unwrap();
+                let base_c = CString::new(self.base_path.to_str().unwrap()).unwrap();
+                let yaml_c = CString::new(self.yaml_of(y)).unwrap();
+                let paths = [pick(sp[4], &base_c)];
+                let params = c_api::AppParameters {
+                    release_version: pick(sp[1], &rel_c),
+                    original_libapp_paths: paths.as_ptr(),
+                    original_libapp_paths_size: if sp[4] == 'e' { 0 } else { 1 },
+                    app_storage_dir: pick(sp[2], &storage_c),
+                    code_cache_dir: pick(sp[3], &cache_c),
+                };
+                let callbacks = c_api::FileCallbacks { open: fc_open, read: fc_read, seek: fc_seek, close: fc_close };
+                let pp: *const c_api::AppParameters = if sp[0] == 'n' { std::ptr::null() } else { &params };
+                let r = c_api::shorebird_init(pp, callbacks, pick(sp[5], &yaml_c));
+                let n = ACT.lock().unwrap().len();
+                if r && !crate::http::enabled() {
+                    verif_set_network_hooks(check_hook, download_hook, report_hook);
+                }
+                ACT.lock().unwrap().truncate(n);
+                r.to_string()
+            }
             ["freenull"] => {
                 // the free functions must accept NULL
                 unsafe {
